@@ -1147,7 +1147,12 @@ reg(Spec(
          "and operands; in the 'plain' flavour the repository's own "
          "BSPLINE_ADD_TEST_CHECKS entry checks run as well (an exception or "
          "terminate from an accessor of a live object is a violation). "
-         + POOL_NT,
+         "Fault injection (double builds): for copy assignment, += , -=, "
+         "cross-order assignment and assignment from a temporary a countdown "
+         "operator new makes the 1st, 2nd, ... allocation inside the call throw "
+         "std::bad_alloc in turn until the call completes; after every failed "
+         "attempt all objects are walked (and, for C14, the target must be "
+         "bit-identical). " + POOL_NT,
     required=["c10:objects-walked", "c10:moved-from-checked",
               "step:move-construct", "step:move-assign", "step:self-assign",
               "step:self-move", "step:cross-order-assign",
@@ -1155,7 +1160,10 @@ reg(Spec(
               "step:support-move", "c10:moved-from-support-checked",
               "step:fail-add-assign", "step:fail-ctor-count",
               "step:fail-lincomb", "step:fail-factor", "step:fail-grid-ctor",
-              "grid-foreign:collapsing", "step:grid-migration"],
+              "grid-foreign:collapsing", "step:grid-migration",
+              "alloc-fault:injected", "alloc-fault:completed",
+              "alloc-fault:alloc-fault-copy-assign",
+              "alloc-fault:alloc-fault-cross-assign"],
     assumptions=["histories of 150 steps over 15+5 objects; orders 0..4 "
                  "(0..6 thorough)", "self-move-assignment is exercised except "
                  "under the checked-STL flavour, where libstdc++ itself "
@@ -1189,10 +1197,14 @@ reg(Spec(
          "points) evaluates its abscissae as listed and then reversed; the "
          "values must be bit-identical. " + POOL_NT,
     required=["c14:bystanders-compared", "c14:evaluations-repeated",
-              "grid:large", "step:fail-add-assign",
+              "grid:large", "alloc-fault:injected",
+              "alloc-fault:alloc-fault-add-assign", "step:fail-add-assign",
               "step:fail-sub-assign", "step:copy-construct",
               "step:copy-assign", "step:mul-assign", "step:add-assign"],
-    assumptions=["histories of 150 steps; orders 0..4"],
+    assumptions=["histories of 150 steps; orders 0..4", "allocation failures "
+                 "are injected for built-in scalar types only: for a scalar "
+                 "type whose own arithmetic can throw, *= and /= can only give "
+                 "the basic guarantee, which is not judged"],
     evaluations="c14:bystanders-compared",
     technique="runtime monitor: before/after deep snapshots of every live "
               "object around every step (frame condition checker)"))
